@@ -404,3 +404,5 @@ def run(ck: Check, repo: Repo) -> None:
     from . import c07
     r6 = ck.rule("R6", "post-render check on every path that returns a header (shared with C07-R1)")
     c07.postcondition(ck, repo, r6)
+    # 'the text cannot be commented in that style -> failure': the writer refuses texts containing the terminator
+    c07.rule_writer_refusal(ck, repo, "R7")
